@@ -6,6 +6,8 @@
 #    without it);
 #  * extra "clock": kv/memory/lease.go and kv/sqlite3/lease.go regenerated from the
 #    repository's *current* text with time.Now() replaced by a settable clock.
+#  * extra "file:<repo-relative path>=<verif-relative source>": adds one overlay-only
+#    file (used by C47 to export cmd/internal/listen through a shim package).
 set -eu
 REPO="$1"; OUT="$2"; shift 2
 ROOT="$(cd "$(dirname "${BASH_SOURCE[0]}")/.." && pwd)"
@@ -31,6 +33,12 @@ var VerifNow = time.Now
 EOG
         entries="$entries, \"$src\": \"$gen\", \"$REPO/kv/$pkg/verif_clock_overlay.go\": \"$clk\""
       done;;
+    file:*=*)
+      # file:<path relative to the repo>=<path relative to /verif>: an overlay-only
+      # file (e.g. an export shim for an internal package); nothing is written to the repo
+      spec="${x#file:}"; dst="${spec%%=*}"; srcf="${spec#*=}"
+      [ -f "$ROOT/$srcf" ] || { echo "overlay source $ROOT/$srcf missing" >&2; exit 1; }
+      entries="$entries, \"$REPO/$dst\": \"$ROOT/$srcf\"";;
     *) echo "unknown overlay extra $x" >&2; exit 1;;
   esac
 done
